@@ -3,7 +3,7 @@ import Rivaas.Model.Compress
 import Rivaas.Spec.Compress
 /-
 Driver for C15. Case line:
-  <id> <A|N> <minSize> <gzip> <br> <exclCT…> <exclPaths…> <exclExts…> <path> <accept-encoding> <recovery>
+  <id> <A|N> <minSize> <gzip> <br> <exclCT…> <exclPaths…> <exclExts…> <path> <accept-encoding> <recovery> <HEAD request: 0|1>
        <nPre> {<key> <n> <val>*}*   (headers an outer middleware set before the chain reached the compression middleware)
        <nSniff> {<prefix> <type>}* <nOps> {op}*  =>  <obs without middleware> <obs with middleware>
   op  ::= H <key> <n> <val>* | D <key> | W <code> | B <bytes> | F | C <n> <bytes>* | X
@@ -74,6 +74,7 @@ structure Case where
   path : Bytes
   ae : Bytes
   recovery : Bool
+  head : Bool
   pre : Hdrs
   sniffTab : List (Bytes × Bytes)
   ops : List Op
@@ -89,10 +90,11 @@ def pCase : P Case := do
   let path ← str
   let ae ← str
   let rc ← bool
+  let hd ← bool
   let pre ← list (do let key ← str; let vs ← list str; pure (key, vs))
   let tab ← list (do let p ← pBytes; let t ← str; pure (p, t))
   let ops ← list pOp
-  pure { asis := tag == "A", cfg := ⟨ms, gz, br, ect, ep, ee⟩, path := path, ae := ae, recovery := rc, pre := pre, sniffTab := tab, ops := ops }
+  pure { asis := tag == "A", cfg := ⟨ms, gz, br, ect, ep, ee⟩, path := path, ae := ae, recovery := rc, head := hd, pre := pre, sniffTab := tab, ops := ops }
 
 /-- http.DetectContentType as shipped by the harness (looked up on the first 512 bytes); an
     argument the harness did not anticipate yields a marker that cannot equal a real type -/
@@ -138,10 +140,14 @@ def step (line : String) : String :=
     match runP pCase inp, runP (do let a ← pObs; let b ← pObs; pure (a, b)) obs with
     | some c, some (op, ow) =>
       let sn := sniffOf c.sniffTab
-      let mp := runPlain sn c.pre c.ops
-      let mw := if c.asis then runWithAsIs sn c.cfg c.path c.ae c.ops else runWith sn c.cfg c.path c.ae c.pre c.ops
+      let mp0 := runPlain sn c.pre c.ops
+      let mw0 := if c.asis then runWithAsIs sn c.cfg c.path c.ae c.ops else runWith sn c.cfg c.path c.ae c.pre c.ops
+      -- a HEAD response is the GET response without body (and without trailers): net/http accepts and drops the
+      -- bytes; the middleware does not look at the method
+      let mp := if c.head then ({ mp0.1 with body := [] }, mp0.2) else mp0
+      let mw := if c.head then { mw0 with decoded := mw0.decoded.map (fun _ => []), resp := { mw0.resp with body := [] } } else mw0
       -- trailers (the as-shipped model does not have them)
-      let trOK := c.asis || (match op, ow with
+      let trOK := c.asis || c.head || (match op, ow with
         | some p, some w =>
           heq (lines ((runOps (plainStep sn) { live := c.pre } c.ops).1.trailersAtFinish sn false)) p.obs.trailers &&
           heq (lines (withTrailers sn c.cfg c.path c.ae c.pre c.ops w.wireBig)) w.obs.trailers
